@@ -52,6 +52,10 @@ def run_scenarios(tier, seed):
             f.write(json.dumps({"seed": seed, "idx": i, "dir": "fetch" if fetch else "push", "commits": 0,
                                 "hpr": rng.choice([1, 2, 3, 256]), "maxpack": rng.choice([0, 1, 300, 2000]),
                                 "depth": rng.choice([0, 0, 1, 2]) if fetch else 0}) + "\n")
+        # pushing own work that sits on top of shallow (table-less) fetched commits to an empty remote
+        for i in range(4):
+            f.write(json.dumps({"seed": seed, "idx": i, "dir": "pushshallow", "commits": 0, "hpr": 256,
+                                "maxpack": [0, 300][i // 2], "depth": 0}) + "\n")
     side2 = os.path.join(vlib.sub("traces"), "sync.sessions.side")
     out2 = vlib.replay("syncsession", ses, side_path=side2, timeout=120)
     # sessions are judged through their trace events; a failed session is a C09 matter
@@ -93,6 +97,11 @@ def judge(v, prop, out, scen, trace, sig_suffixes, clauses):
             v.violation(sig, dict(engine="syncsession", scenario=detail.get("case"), detail=detail))
     mine.crashes, mine.timeouts = out.crashes, out.timeouts
     vlib.absorb_replay(v, mine, "sync", scen, crash_sig=lambda sc, t: "sync/crash")
+    if prop == "C09":
+        # a client session that dies (a panic in the session code) is a failed transfer
+        for idx, text in getattr(out, "crashes_sessions", []):
+            v.violation("sync/session/crash", dict(engine="syncsession", scenario={"session_index": idx},
+                                                   detail={"crashed": True, "stderr": text[-1500:]}))
     n_traces, n_events, rejections, last = vlib.validate_traces("TraceSync", "TraceSync.cfg", trace, max_rejections=30)
     owned = 0
     for r in rejections:
